@@ -55,7 +55,7 @@ impl Pattern {
 
 pub const APP_NAMES: [&str; 6] = ["put_slice", "extend_from_slice", "put_bytes", "resize", "extend(iter)", "reserve+chunk_mut+advance_mut"];
 pub const CONS_NAMES: [&str; 8] = ["split()", "split_to(f)", "advance(f)", "clear()", "split_off(f) keeping the tail", "Buf::copy_to_bytes(f)", "Buf::copy_to_bytes(remaining())", "(&mut buf).take(f).copy_to_bytes(f)"];
-pub const FATE_NAMES: [&str; 7] = ["drop", "freeze, drop", "keep k rounds", "freeze, clone, keep clone k rounds", "unsplit back, then advance", "Vec::from(part), drop", "Vec::from(part.freeze()), drop"];
+pub const FATE_NAMES: [&str; 8] = ["drop", "freeze, drop", "keep k rounds", "freeze, clone, keep clone k rounds", "unsplit back, then advance", "Vec::from(part), drop", "Vec::from(part.freeze()), drop", "the emptied remainder takes the part back: buf.unsplit(part); buf.clear()"];
 
 enum Part {
     M(BytesMut),
@@ -90,7 +90,7 @@ pub fn run_pattern(p: &Pattern, n: u64) -> RunRes {
     res.bound_allocs = (2.0 * ((8 * w) as f64).log2()).ceil() as u64 + 8;
     let mut shapes = HashSet::new();
     for r in &p.rounds {
-        shapes.insert((r.app_m % 6, r.cons_m % 8, r.fate % 7, r.reserve > 0));
+        shapes.insert((r.app_m % 6, r.cons_m % 8, r.fate % 8, r.reserve > 0));
     }
     res.shapes = shapes.len();
     oalloc::set_quarantine(false);
@@ -239,7 +239,7 @@ pub fn run_pattern(p: &Pattern, n: u64) -> RunRes {
         // fate of the part
         if let Some(pb) = part_b {
             let due = i + 1 + k as u64;
-            match r.fate % 7 {
+            match r.fate % 8 {
                 5 | 6 => {
                     let _ = call(move || drop(Vec::from(pb)));
                 }
@@ -265,7 +265,7 @@ pub fn run_pattern(p: &Pattern, n: u64) -> RunRes {
         }
         if let Some(pt) = part {
             let due = i + 1 + k as u64;
-            match r.fate % 7 {
+            match r.fate % 8 {
                 0 => {
                     let _ = call(move || drop(pt));
                 }
@@ -298,6 +298,19 @@ pub fn run_pattern(p: &Pattern, n: u64) -> RunRes {
                         } else {
                             kept.push_back((due, Part::B(c)));
                         }
+                    }
+                }
+                7 if buf.is_empty() => {
+                    // the emptied remainder takes the part back (`buf.unsplit(frame)` after `frame = buf.split()`): a handover,
+                    // no copy and no allocation; then the frame is consumed in place
+                    let (ur, ud) = call(|| {
+                        buf.unsplit(pt);
+                        buf.clear();
+                    });
+                    buf_allocs += ud.byte_allocs;
+                    if ur.is_err() {
+                        fail(&mut res, "unsplit-panicked", format!("round {}", i));
+                        break;
                     }
                 }
                 _ => {
@@ -384,7 +397,7 @@ pub fn run_pattern(p: &Pattern, n: u64) -> RunRes {
 fn round_strategy() -> BoxedStrategy<Round> {
     let m = prop_oneof![4 => 1u32..=64, 3 => 65u32..=1500, 1 => Just(4096u32), 1 => Just(0u32), 1 => Just(1024u32)];
     let reserve = prop_oneof![5 => Just(0u32), 2 => 1u32..=4096, 1 => Just(65536u32), 1 => Just(128u32)];
-    (reserve, 0u8..6, m, 0u8..8, 0u8..=16, 0u8..7).prop_map(|(reserve, app_m, m, cons_m, frac, fate)| Round { reserve, app_m, m, cons_m, frac, fate }).boxed()
+    (reserve, 0u8..6, m, 0u8..8, 0u8..=16, 0u8..8).prop_map(|(reserve, app_m, m, cons_m, frac, fate)| Round { reserve, app_m, m, cons_m, frac, fate }).boxed()
 }
 pub fn pattern_strategy(max_period: usize) -> BoxedStrategy<Pattern> {
     let caps = prop_oneof![2 => Just(0u32), 2 => 1u32..=128, 2 => Just(1024u32), 1 => Just(4096u32), 1 => Just(65536u32), 1 => Just(65535u32), 1 => 129u32..=9000];
@@ -419,6 +432,46 @@ pub fn main_recycle(args: &Args) -> i32 {
         }
         println!("{}", json!({"evaluations": 1, "violations": viols, "trace": [format!("{:?}", r)]}));
         return if viols.is_empty() { 0 } else { 1 };
+    }
+    // ---- enumerated idioms: ONE way of consuming and ONE fate of the part, repeated with a few message-size profiles,
+    //      initial capacities and retention windows (random cycles mix the styles, which dilutes a defect in one of them)
+    let workers = args.u64("workers", 1).max(1);
+    let mut idiom_evals = 0u64;
+    let mut idiom_rounds = 0u64;
+    let mut idx = 0u64;
+    'idioms: for cons_m in 0u8..8 {
+        for fate in 0u8..8 {
+            for (k, lmax) in [(0u8, 0u32), (0, 40), (2, 0)] {
+                for init_cap in [0u32, 64, 4096] {
+                    for prof in 0..3 {
+                        idx += 1;
+                        if idx % workers != worker % workers {
+                            continue;
+                        }
+                        let ms: &[u32] = match prof {
+                            0 => &[100],
+                            1 => &[1500, 1200],
+                            _ => &[10, 1000, 33, 700],
+                        };
+                        let rounds: Vec<Round> = ms.iter().enumerate().map(|(j, &m)| Round { reserve: 0, app_m: (j % 6) as u8, m, cons_m, frac: if lmax == 0 { 16 } else { 13 }, fate }).collect();
+                        let p = Pattern { init_cap, rounds, k, lmax, relabel_every: 0 };
+                        util::set_current_case(&p.to_json(n).to_string());
+                        let r = run_pattern(&p, n);
+                        idiom_evals += 1;
+                        idiom_rounds += r.rounds_run;
+                        if r.viol.is_some() {
+                            record(&p, n, &r, "enumerated idiom", &mut viols);
+                            break 'idioms;
+                        }
+                    }
+                }
+            }
+        }
+    }
+    if !viols.is_empty() {
+        println!("{}", json!({"engine": "recycle", "property": "C18", "profile": util::profile_name(), "seed": seed, "worker": worker, "evaluations": idiom_evals,
+            "nontrivial_distinct_this_worker": 0, "histogram": {"rounds_executed": idiom_rounds, "enumerated_idiom_patterns": idiom_evals}, "samples": [], "violations": viols}));
+        return 1;
     }
     let strat = pattern_strategy(args.usize("max-period", 16));
     let mut s = [0u8; 32];
@@ -507,8 +560,8 @@ pub fn main_recycle(args: &Args) -> i32 {
     }
     let out = json!({
         "engine": "recycle", "property": "C18", "profile": util::profile_name(), "seed": seed, "worker": worker,
-        "evaluations": evals, "nontrivial_distinct_this_worker": nontriv.len(),
-        "histogram": {"rounds_executed": rounds_total, "patterns_with_reclaim_without_allocation": hist[0], "patterns_with_shift_to_front": hist[1], "patterns_with_fresh_allocation_while_shared": hist[2],
+        "evaluations": evals + idiom_evals, "nontrivial_distinct_this_worker": nontriv.len(),
+        "histogram": {"rounds_executed": rounds_total + idiom_rounds, "enumerated_idiom_patterns": idiom_evals, "patterns_with_reclaim_without_allocation": hist[0], "patterns_with_shift_to_front": hist[1], "patterns_with_fresh_allocation_while_shared": hist[2],
             "patterns_with_nonempty_leftover": hist[3], "patterns_with_k0(allocation-count bound applies)": hist[4], "patterns_run_at_the_long_length": hist[5], "sole_owner_reserve_claims": sole},
         "extra": {"worst (peak-4096)/((k+2)*W) (bound 8)": worst_ratio, "worst late byte-buffer allocations with k=0": worst_late, "rounds": n, "long_rounds": long_n},
         "samples": samples, "violations": viols,
